@@ -64,7 +64,16 @@ def run_unit(name, spec, repo, workdir, tier="quick", seed=0, threads=4, timeout
         if os.path.exists(f):
             os.remove(f)
     tpl = os.path.join(VERIF, spec["template"])
-    p = subprocess.run([VX, repo, tpl, gen, log], capture_output=True, text=True)
+    # files generated from the repo under test right before extraction (e.g. macro instantiations written by a generator)
+    env = dict(os.environ, VX_GEN=workdir)
+    for cmdt in spec.get("pre_gen", []):
+        cmd0 = [c.replace("{repo}", repo).replace("{gen}", workdir).replace("{verif}", VERIF) for c in cmdt]
+        g = subprocess.run(cmd0, capture_output=True, text=True, cwd=VERIF)
+        if g.returncode != 0:
+            res["reason"] = "extraction: generator %s failed: %s" % (cmd0[1] if len(cmd0) > 1 else cmd0[0], (g.stderr.strip() or g.stdout.strip())[-300:])
+            res["wall_s"] = time.time() - t0
+            return res
+    p = subprocess.run([VX, repo, tpl, gen, log], capture_output=True, text=True, env=env)
     if p.returncode != 0:
         res["reason"] = "extraction: " + (p.stderr.strip().split("\n")[-1] if p.stderr.strip() else "vx exit %d" % p.returncode)
         res["wall_s"] = time.time() - t0
